@@ -81,3 +81,16 @@ Theorem code_moment_wind_down c fuel n evs s : 1 <= height c -> code_moment c fu
 Proof. intros H M. destruct (code_moment_INV c fuel n evs s H M) as (_ & _ & _ & _ & _ & D & _). exact D. Qed.
 Theorem code_moment_hibernation c fuel n evs s : 1 <= height c -> code_moment c fuel n evs s -> HIB c s.
 Proof. intros H M. destruct (code_moment_INV c fuel n evs s H M) as (_ & _ & _ & _ & _ & _ & B). exact B. Qed.
+
+(* C19: the translated run() resumed from ANY boundary state that satisfies the invariants (a restored snapshot) performs an accepted machine
+   run, every state of which satisfies the invariants again *)
+Theorem code_resume_keeps_invariants c fuel s evs s' rest :
+  gens_ok c -> pc s = PMain -> INV c s -> exec (gen_tree_run c fuel) s evs = Some (tt, s', rest) ->
+  exists used s'', evs = used ++ rest /\ run c s used = Some s'' /\ pc s'' = PDone /\ set_pc s'' PMain = set_pc s' PMain /\ INV c s'' /\
+    (forall k s_k, run c s (firstn k used) = Some s_k -> INV c s_k).
+Proof.
+  intros G P I E. destruct (code_run_refines c fuel s evs s' rest G P E) as (used & s'' & -> & R & PD & Q).
+  exists used, s''. split; [reflexivity|]. split; [exact R|]. split; [exact PD|]. split; [exact Q|]. split.
+  - eapply INV_run; eauto.
+  - intros k s_k Rk. eapply INV_run; eauto.
+Qed.
